@@ -50,4 +50,9 @@ func TestCheckDevicesUnderContention(t *testing.T) {
 		func(t *rapid.T) *sim.World { return sim.GenWorld(t, contentionProfile()) }, sim.JudgeNodes(false))
 }
 
+// DRA devices through their whole life in one scheduler process (kit/sim/families.go): never handed to two pods
+func TestCheckDRALifecycleFamilies(t *testing.T) {
+	sim.CheckProperty(t, "C01", kit.Budget{Quick: 800, Thorough: 40000}, sim.GenDRALifecycleFamily, sim.JudgeNodes(false))
+}
+
 func TestReplay(t *testing.T) { sim.ReplayProperty(t, sim.JudgeNodes(false), 20) }
